@@ -565,7 +565,7 @@ func (it *Interp) exec(fr *frame, ins ssa.Instruction) {
 		it.set(fr, x, it.unop(fr, x))
 	case *ssa.BinOp:
 		a, b := it.get(fr, x.X), it.get(fr, x.Y)
-		it.set(fr, x, it.binop(x.Op, a, b, x.X.Type(), x.Y.Type()))
+		it.set(fr, x, it.fixedTerm(it.binop(x.Op, a, b, x.X.Type(), x.Y.Type())))
 	case *ssa.Store:
 		p := it.get(fr, x.Addr).(PtrV)
 		it.store(p, it.get(fr, x.Val))
@@ -801,7 +801,7 @@ func (it *Interp) unop(fr *frame, x *ssa.UnOp) Value {
 	case token.XOR:
 		return c.BVNot(v.(*smt.Term))
 	case token.ARROW:
-		return it.chanRecv(v, x.CommaOk)
+		return it.chanRecv(v, x.CommaOk, x.X.Type())
 	}
 	it.abort("unsupported unop %v on %T", x.Op, v)
 	return nil
